@@ -46,6 +46,25 @@ def run_sort_case(case, prof, B, reverse, cache, tmpdir, occ=0):
         return 'pass 1 delivered %r, spec %r' % (p1, want)
     if p2 != want:
         return 'pass 2 delivered %r, spec %r' % (p2, want)
+    if B is None and cache:
+        # issorted judges the INPUT by the same order: sorted iff the stable order is the identity; strictly sorted iff
+        # moreover the stable order of the opposite direction is the exact reverse (no two equal keys)
+        n = len(rows)
+        ident, rev = list(range(1, n + 1)), list(range(n, 0, -1))
+        fwd, bwd = (case['desc'], case['asc']) if reverse else (case['asc'], case['desc'])
+        for strict, expect in ((False, fwd == ident), (True, fwd == ident and bwd == rev)):
+            try:
+                got = etl.issorted(t, KEYARG[case['key']], reverse=reverse, strict=strict)
+            except Exception as e:
+                return 'issorted(reverse=%s, strict=%s) raised %r' % (reverse, strict, e)
+            if bool(got) != expect:
+                return 'issorted(key=%r, reverse=%s, strict=%s) says %r, the definition (stable order = identity%s) %r' % (
+                    KEYARG[case['key']], reverse, strict, got, ', no equal keys' if strict else '', expect)
+        try:
+            if not etl.issorted(p1, KEYARG[case['key']], reverse=reverse):
+                return 'issorted(sort(t)) is False for the same key and direction'
+        except Exception as e:
+            return 'issorted(sort(t)) raised %r' % (e,)
     return None
 
 
@@ -91,38 +110,54 @@ def bsizes(n):
     return [None] + list(range(1, n + 2))
 
 
-def check_sort_cases(chk, cases, profiles, full):
+def _sort_job(j):
+    """All strategies for one (case, profile); returns (counts, violations) for the parent to record."""
+    ci, case, pname, spelling = j
+    prof = PROFILES[pname]
+    n = len(case['rows'])
+    counts, viols = [], []
     with common.private_tmp() as tmp:
-        for ci, case in enumerate(cases):
-            n = len(case['rows'])
-            for pi, pname in enumerate(profiles):
-                # quick: rotate profiles over cases; thorough: all profiles for every case
-                if not full and (ci + pi) % len(profiles) != 0:
-                    continue
-                prof = PROFILES[pname]
-                for B in bsizes(n):
-                    for reverse in (False, True):
-                        if B in (None, 1, n) and (ci + pi) % len(profiles) == 0:      # key spellings: one (rotating) profile per case
-                            msg = run_sort_spelling_case(case, prof, B, reverse, tmp, occ=ci)
-                            chk.count(('sort-spelling', ci, B, reverse))
-                            chk.replayed += 1
-                            if msg:
-                                chk.violation({'op': 'sort', 'key': case['key'], 'kind': 'key-spelling'},
-                                              'sort(reverse=%s, buffersize=%s) profile=%s rows=%r: %s' % (reverse, B, pname, case['rows'], msg),
-                                              {'kind': 'sort-spelling', 'case': case, 'profile': pname, 'B': B, 'reverse': reverse, 'occ': ci})
-                        for cache in (True, False):
-                            msg = run_sort_case(case, prof, B, reverse, cache, tmp, occ=ci)
-                            chk.count(('sort', ci, B, reverse, cache))
-                            chk.replayed += 1
-                            if msg:
-                                chk.violation({'op': 'sort', 'key': case['key']},
-                                              'sort(key=%r, reverse=%s, buffersize=%s, cache=%s) profile=%s rows=%r: %s'
-                                              % (KEYARG[case['key']], reverse, B, cache, pname, case['rows'], msg),
-                                              {'kind': 'sort', 'case': case, 'profile': pname, 'B': B,
-                                               'reverse': reverse, 'cache': cache, 'occ': ci})
-        left = os.listdir(tmp)
-        if left:
-            chk.add_drift('temp files left behind after sort cases: %d' % len(left))
+        for B in bsizes(n):
+            for reverse in (False, True):
+                if B in (None, 1, n) and spelling:      # key spellings: one (rotating) profile per case
+                    msg = run_sort_spelling_case(case, prof, B, reverse, tmp, occ=ci)
+                    counts.append(('sort-spelling', ci, B, reverse))
+                    if msg:
+                        viols.append(({'op': 'sort', 'key': case['key'], 'kind': 'key-spelling'},
+                                      'sort(reverse=%s, buffersize=%s) profile=%s rows=%r: %s' % (reverse, B, pname, case['rows'], msg),
+                                      {'kind': 'sort-spelling', 'case': case, 'profile': pname, 'B': B, 'reverse': reverse, 'occ': ci}))
+                for cache in (True, False):
+                    msg = run_sort_case(case, prof, B, reverse, cache, tmp, occ=ci)
+                    counts.append(('sort', ci, B, reverse, cache))
+                    if msg:
+                        viols.append(({'op': 'sort', 'key': case['key']},
+                                      'sort(key=%r, reverse=%s, buffersize=%s, cache=%s) profile=%s rows=%r: %s'
+                                      % (KEYARG[case['key']], reverse, B, cache, pname, case['rows'], msg),
+                                      {'kind': 'sort', 'case': case, 'profile': pname, 'B': B,
+                                       'reverse': reverse, 'cache': cache, 'occ': ci}))
+        left = len(os.listdir(tmp))
+    return counts, viols, left
+
+
+def check_sort_cases(chk, cases, profiles, full):
+    jobs = []
+    for ci, case in enumerate(cases):
+        for pi, pname in enumerate(profiles):
+            # quick: rotate profiles over cases; thorough: all profiles for every case
+            rot = (ci + pi) % len(profiles) == 0
+            if not full and not rot:
+                continue
+            jobs.append((ci, case, pname, rot))
+    left = 0
+    for counts, viols, l in common.pmap(_sort_job, jobs):
+        for c in counts:
+            chk.count(c)
+            chk.replayed += 1
+        for sig, msg, rp in viols:
+            chk.violation(sig, msg, rp)
+        left += l
+    if left:
+        chk.add_drift('temp files left behind after sort cases: %d' % left)
     if cases:
         chk.sample({'kind': 'sort-case', 'case': cases[len(cases) // 2]})
 
@@ -188,6 +223,16 @@ def run_merge_case(case, prof, B, reverse, presorted, tmpdir):
                     return 'presorted with %r raised %r' % (kw, e)
                 if got != ref:
                     return 'mergesort(presorted=True, %s) over %r delivered %r, sort(cat(.., %s), key) delivers %r' % (kw, pres, got, kw, ref)
+    # a source whose header REPEATS a field name (the first column of that name counts, in cat as in mergesort)
+    if key is not None and B in (None, 1) and len(tables) >= 2 and len(hdr) == 3:
+        dup = [tables[0]] + [[[hdr[0], hdr[1], hdr[1]]] + t[1:] for t in tables[1:]]
+        try:
+            ref = [tuple(r) for r in etl.sort(etl.cat(*dup), key if key != ('b', 'a') and key != ('a', 'b') else 'a', reverse=reverse)]
+            got = [tuple(r) for r in etl.mergesort(*dup, key=key if key != ('b', 'a') and key != ('a', 'b') else 'a', reverse=reverse, buffersize=B, tempdir=tmpdir)]
+        except Exception as e:
+            return 'with a repeated field name raised %r' % (e,)
+        if got != ref:
+            return 'sources %r (repeated field name): mergesort delivers %r, sort(cat(..)) %r' % (dup, got, ref)
     # rows LONGER than the header: surplus cells are dropped by cat, by the default mergesort and by presorted=True alike
     if key is not None and B in (None, 1):
         tl = [[t[0]] + [list(r) + ([u'surplus', i] if (i + j) % 2 == 0 else []) for j, r in enumerate(t[1:])] for i, t in enumerate(tables)]
@@ -204,24 +249,33 @@ def run_merge_case(case, prof, B, reverse, presorted, tmpdir):
     return None
 
 
-def check_merge_cases(chk, cases, profiles, full):
+def _merge_job(j):
+    ci, case, pname = j
+    prof = PROFILES[pname]
+    counts, viols = [], []
     with common.private_tmp() as tmp:
-        for ci, case in enumerate(cases):
-            if not full and ci % 3:
-                continue
-            prof = PROFILES[profiles[ci % len(profiles)]]
-            for B in (None, 1, 2):
-                for reverse in (False, True):
-                    for presorted in ((False, True) if B is None else (False,)):
-                        msg = run_merge_case(case, prof, B, reverse, presorted, tmp)
-                        chk.count(('mergesort', ci, B, reverse, presorted))
-                        chk.replayed += 1
-                        if msg:
-                            chk.violation({'op': 'mergesort', 'key': case['key']},
-                                          'mergesort(key=%r, reverse=%s, buffersize=%s, presorted=%s) tables=%r: %s'
-                                          % (KEYARG[case['key']], reverse, B, presorted, case['tables'], msg),
-                                          {'kind': 'mergesort', 'case': case, 'profile': prof.name, 'B': B,
-                                           'reverse': reverse, 'presorted': presorted})
+        for B in (None, 1, 2):
+            for reverse in (False, True):
+                for presorted in ((False, True) if B is None else (False,)):
+                    msg = run_merge_case(case, prof, B, reverse, presorted, tmp)
+                    counts.append(('mergesort', ci, B, reverse, presorted))
+                    if msg:
+                        viols.append(({'op': 'mergesort', 'key': case['key']},
+                                      'mergesort(key=%r, reverse=%s, buffersize=%s, presorted=%s) tables=%r: %s'
+                                      % (KEYARG[case['key']], reverse, B, presorted, case['tables'], msg),
+                                      {'kind': 'mergesort', 'case': case, 'profile': prof.name, 'B': B,
+                                       'reverse': reverse, 'presorted': presorted}))
+    return counts, viols
+
+
+def check_merge_cases(chk, cases, profiles, full):
+    jobs = [(ci, case, profiles[ci % len(profiles)]) for ci, case in enumerate(cases) if full or ci % 3 == 0]
+    for counts, viols in common.pmap(_merge_job, jobs):
+        for c in counts:
+            chk.count(c)
+            chk.replayed += 1
+        for sig, msg, rp in viols:
+            chk.violation(sig, msg, rp)
     if cases:
         chk.sample({'kind': 'mergesort-case', 'case': cases[len(cases) // 2]})
 
